@@ -21,7 +21,7 @@ def make_session(h, repo_root):
     s = Session(h.ident, div_mode=h.div_mode, max_paths=h.max_paths)
     if h.rlimit:
         s.rlimit_goal = h.rlimit
-    s.proxy_safe = set()
+    s.proxy_safe = {("pyneqsys.symbolic", "linear_exprs")}
     s.max_unroll = 64
     s.allow_havoc = h.allow_havoc
     return s
